@@ -46,9 +46,25 @@ func runC16(r *core.Run) {
 		if ci%3 != 0 {
 			lim.MeltingSettings.MaxAmount = 20 + uint64(rng.Intn(300))
 		}
+		// every sixth configuration works with totals beyond 2^53 (sums that a floating-point
+		// aggregate cannot hold exactly): the history starts by minting 2^53 + 2^k + 1
+		huge := ci%6 == 4
+		var hugeStart []uint64
+		if huge {
+			k := uint(54 + rng.Intn(7))
+			hugeStart = []uint64{1 << 53, 1, 1 << k, 2}
+			lim = mint.MintLimits{}
+			if ci%12 == 4 {
+				lim.MaxBalance = 1<<53 + 1<<k + 3 // exactly what the four fundings reach
+			}
+			r.Count("configurations_with_totals_beyond_2^53", 1)
+		}
 		world := lnmodel.NewWorld(r.Seed*131 + int64(ci))
 		world.AutoDeliver = false
 		backend := map[int]string{3: "cln", 1: "lnd"}[ci%4] // gonuts' own adapters and a fake node between mint and model
+		if huge {
+			backend = ""
+		}
 		if backend != "" {
 			r.Count("configurations_through_the_"+backend+"_adapter", 1)
 		}
@@ -110,6 +126,10 @@ func runC16(r *core.Run) {
 				r.Violate("negative-balance", "issued - redeemed < 0 in the model: "+bal.String(), csig, s.Tail(8))
 			} else if bigU(tot).Cmp(bal) != 0 {
 				r.Violate("total-balance-differs", fmt.Sprintf("TotalBalance %d, issued - redeemed = %v", tot, bal), csig, s.Tail(8))
+			}
+			// --- the same totals as the admin RPC server (mint/manager) reports them over its socket
+			if s.NOps%4 == 0 {
+				c16Admin(r, env, s, bal, csig)
 			}
 			// --- info endpoint
 			info, err := env.M.RetrieveMintInfo()
@@ -207,6 +227,9 @@ func runC16(r *core.Run) {
 				}
 			}
 			r.Eval(csig, nt)
+		}
+		for _, a := range hugeStart {
+			s.Fund(a)
 		}
 		for i := 0; i < nops && r.Violations() < 10; i++ {
 			// with a max balance: push towards the limit, then melt below it again
